@@ -121,7 +121,21 @@ func checkRequired(c reqCase) error {
 	return nil
 }
 
-var reqTypes = corpus.RequiredBearing()
+var cycleTypes = registerCycle()
+
+var reqTypes = func() []string {
+	out := corpus.RequiredBearing()
+	have := map[string]bool{}
+	for _, n := range out {
+		have[n] = true
+	}
+	for _, n := range cycleTypes { // registered above, so normally already listed
+		if !have[n] {
+			out = append(out, n)
+		}
+	}
+	return out
+}()
 
 // missingDepth returns the depth of the shallowest missing required field (0 = none missing).
 func missingDepth(md protoreflect.MessageDescriptor, v *model.Msg, depth int) int {
@@ -163,8 +177,14 @@ func TestRequired(t *testing.T) {
 	mo.Depth = 4
 	pbt.Run(t, pbt.Prop[reqCase]{
 		Name: "required",
-		Rule: "types: every linked type from which a required field is reachable; content from the descriptor-directed generator with each required field omitted with probability 1/5 at every depth (valid UTF-8 so that JSON/text can represent it). non-trivial = a required field missing at depth >= 2, or a fully initialised tree of depth >= 3",
+		Rule: "types: every linked type from which a required field is reachable, plus a hand-written struct-tag schema in which the required field is reachable only through a cycle of the message graph (A{B,C}, B{A}, C{required}); content from the descriptor-directed generator with each required field omitted with probability 1/5 at every depth (valid UTF-8 so that JSON/text can represent it). non-trivial = a required field missing at depth >= 2, or a fully initialised tree of depth >= 3",
 		Draw: func(t *rapid.T) reqCase {
+			if rapid.IntRange(0, 11).Draw(t, "cycle-types") == 0 {
+				// the hand-written cyclic schema (cycle_test.go): a fixed share, deeper content
+				cm := mo
+				cm.Depth = 6
+				return reqCase{Case: mcase.Draw(t, cycleTypes, cycleTypes, cm, model.AllPerturbations), Lazy: rapid.Bool().Draw(t, "lazy")}
+			}
 			return reqCase{Case: mcase.Draw(t, reqTypes, reqTypes, mo, model.AllPerturbations), Lazy: rapid.Bool().Draw(t, "lazy")}
 		},
 		Check: checkRequired,
